@@ -484,6 +484,28 @@ class Conformance(UperBase):
         return None
 
 
+class SpecDecode(Conformance):
+    """the reader on the X.691 specification's bits of every presence pattern of the shapes — also those the
+    writer refuses (first extension addition absent, a later one present): absent components decode as
+    absent, DEFAULT components to their default, and the reader stops at the last bit"""
+    name = "uper-xdec"
+
+    def gen(self, rng, tier):
+        sh = Shapes()
+        sh.prepare(self.h, self.d)
+        # (the shapes only: their components are small INTEGERs and BOOLEANs, on which writer and X.691 agree;
+        #  conformance of the other component types is property C02's subject)
+        shape_reqs = [r for r in sh.gen(rng.fork("shapes"), tier) if r.startswith("uper rt zoo_shape::")]
+        cand = [tuple(uperlib.split_sx(r.split(" ", 2)[2])) for r in shape_reqs]
+        reqs = []
+        if self.d:
+            xs = vlib.run_lines(self.d, [f"uper xenc x {ty} {val}" for n, ty, val in cand])
+            for (n, ty, val), x in zip(cand, xs):
+                if x.startswith("ok "):
+                    reqs.append(f"uper xdec {n} {ty} {val} {x[3:]}")
+        return reqs
+
+
 class ExtForms(RoundTrip):
     """C06, second sentence: a value outside the root of an EXTENSIBLE constraint is encoded in the
     extension form and still round-trips — the round-trip requests of the types that have an extensible
@@ -540,6 +562,9 @@ FAMILIES = [
     ["zoo_ver::EnuCaseV1", "zoo_ver::EnuCaseV2"],
     ["zoo_ver::ChoCaseV1", "zoo_ver::ChoCaseV2"],
     ["zoo_ver::WideV1", "zoo_ver::WideV2"],
+    ["zoo_ver::NulV1", "zoo_ver::NulV2", "zoo_ver::NulV3"],
+    ["zoo_ver::NulWrapV1", "zoo_ver::NulWrapV2", "zoo_ver::NulWrapV3"],
+    ["zoo_ver::EnuNumV1", "zoo_ver::EnuNumV2", "zoo_ver::EnuNumV3"],
     # SET whose later addition has a lower tag than an earlier one
     ["zoo_ver::SetV1", "zoo_ver::SetV2"],
 ]
